@@ -9,11 +9,13 @@ import (
 	"crypto/rand"
 	"crypto/rsa"
 	"crypto/x509"
+
 	"encoding/base64"
 	"encoding/hex"
 	"encoding/json"
 	"encoding/pem"
 	"fmt"
+	nutscrypto "github.com/nuts-foundation/nuts-node/crypto"
 	"os"
 	"path/filepath"
 	"regexp"
@@ -352,6 +354,52 @@ func c03Body(s *simkit.Sim, rc *simkit.RunCtx) {
 			}
 			s.Probes.Inc("signature-verified-with-published-key")
 		}
+	}
+	// ---- a key id that is linked to another key afterwards: what is published for it and what signs for it change together ----
+	if !s.Failed() && s.D.Decide("relink", 2) == 1 {
+		op("relink", func() {
+			ctx := audit.Context(context.Background(), "sim", "Sim", "op")
+			kidR := fmt.Sprintf("relinked-key-%d", s.D.Decide("relink-name", 1000))
+			kid2 := kidR + "-successor"
+			_, pub1, err1 := b.Crypto.New(ctx, nutscrypto.StringNamingFunc(kidR))
+			ref2, _, err2 := b.Crypto.New(ctx, nutscrypto.StringNamingFunc(kid2))
+			if err1 != nil || err2 != nil || ref2 == nil {
+				s.Info.Inc("relink-skipped")
+				return
+			}
+			verifyWith := func(stage string, pub interface{}) bool {
+				for name, sign := range map[string]func() (string, error){
+					"SignJWT": func() (string, error) { return b.Crypto.SignJWT(ctx, map[string]interface{}{"iss": "x"}, nil, kidR) },
+					"SignJWS": func() (string, error) {
+						return b.Crypto.SignJWS(ctx, []byte("hello"), map[string]interface{}{"typ": "x"}, kidR, false)
+					},
+				} {
+					token, err := sign()
+					if err != nil {
+						continue
+					}
+					if _, err := jws.Verify([]byte(token), jws.WithKey(jwa.ES256, pub)); err != nil {
+						s.Fail("C03.kid", "relinked:"+name, "%s: the %s signature requested for %s does not verify with the key the key store publishes for it: %v", stage, name, kidR, err)
+						return false
+					}
+				}
+				return true
+			}
+			if !verifyWith("before the key id was linked to another key", pub1) {
+				return
+			}
+			if err := b.Crypto.Link(ctx, kidR, ref2.KeyName, ref2.Version); err != nil {
+				s.Info.Inc("relink-refused")
+				return
+			}
+			pubNow, err := b.Crypto.Resolve(ctx, kidR)
+			if err != nil {
+				return
+			}
+			if verifyWith("after the key id was linked to another key", pubNow) {
+				s.Probes.Inc("signature-verified-after-relink")
+			}
+		})
 	}
 	// ---- imported non-EC keys: whatever is asked of them, their material stays inside ----
 	var goErrors []string
